@@ -23,6 +23,7 @@ structure Gen where
   initErr : Bool
   finErr : Bool
   typeErr : List Nat            -- `GenerateType` fails on these ids (after writing its bytes)
+  silent : Bool := false        -- the hooks write nothing to the body
 deriving Repr
 
 structure Target where
@@ -145,22 +146,24 @@ def typeBytes (g : Str) (t : Nat) : Str := "// type ".toList ++ g ++ [' '] ++ (t
 def finBytes (g : Str) : Str := "// fin ".toList ++ g ++ ['\n']
 
 /-- `executeBody`: events, bytes appended to the body, and whether a hook failed -/
+def wr (g : Gen) (b : Str) : Str := if g.silent then [] else b
+
 def bodyTypes (g : Gen) (ns : List Str) : List Nat → List Ev × Str × Bool
   | [] => ([], [], false)
   | t :: ts =>
-    if g.typeErr.contains t then ([.genType g.name t ns], typeBytes g.name t, true)
+    if g.typeErr.contains t then ([.genType g.name t ns], wr g (typeBytes g.name t), true)
     else
       let r := bodyTypes g ns ts
-      (.genType g.name t ns :: r.1, typeBytes g.name t ++ r.2.1, r.2.2)
+      (.genType g.name t ns :: r.1, wr g (typeBytes g.name t) ++ r.2.1, r.2.2)
 
 def executeBody (g : Gen) (ns : List Str) (order : List Nat) : List Ev × Str × Bool :=
-  if g.initErr then ([.hook .init g.name ns order], initBytes g.name, true)
+  if g.initErr then ([.hook .init g.name ns order], wr g (initBytes g.name), true)
   else
     let r := bodyTypes g ns order
-    if r.2.2 then (.hook .init g.name ns order :: r.1, initBytes g.name ++ r.2.1, true)
+    if r.2.2 then (.hook .init g.name ns order :: r.1, wr g (initBytes g.name) ++ r.2.1, true)
     else
       (.hook .init g.name ns order :: r.1 ++ [.hook .finalize g.name ns order],
-       initBytes g.name ++ r.2.1 ++ finBytes g.name, g.finErr)
+       wr g (initBytes g.name) ++ r.2.1 ++ wr g (finBytes g.name), g.finErr)
 
 def findFile (files : List File) (name : Str) : Option File := files.find? (fun f => f.name = name)
 
